@@ -309,6 +309,7 @@ def _capability_tables(p, led, mito):
     EXECUTED_AT.clear()
     for label, how in (("metabolize ▸ tool pathway (forced)", "forced"), ("metabolize ▸ tool pathway (auto-detected)", "auto"), ("execute_tool_call", "call")):
         bad, npaths = [], 0
+        admissible_ran = [0]
         for req, allowed in combos:
             def go(o, _req=req, _allowed=allowed):
                 it = Interp(p, o)
@@ -345,16 +346,18 @@ def _capability_tables(p, led, mito):
                     bad.append(f"{tag}: the tool body ran although its requirements exceed the ceiling")
                 elif not may and r["success"] is not False:
                     bad.append(f"{tag}: the refusal is reported as success={r['success']!r}")
-                elif may and (r["ran"] != 1 or r["success"] is not True):
-                    bad.append(f"{tag}: an admissible tool ran {r['ran']}× with success={r['success']!r}")
+                elif may and r["ran"]:
+                    admissible_ran[0] += 1          # (the statement does not oblige an admissible call to go through; it must be *possible*, or the table is vacuous)
         key = f"Mitochondria.{label} ▸ capability table ({len(combos)} required × allowed cells)"
         fn = etc if how == "call" else met
+        if not admissible_ran[0] and not bad:
+            raise AnchorError(f"{label}: no admissible tool ever ran in the capability table — the harness does not reach tool execution")
         if bad:
             ok_all = False
             led.fail("C03-R1", key, where(fn, fn.node), f"{len(set(bad))} cell(s), e.g. {sorted(set(bad))[0]}", path=sorted(set(bad))[:8],
                      witness="Mitochondria(allowed_capabilities=set()) + tool requiring NET: the tool body runs")
         else:
-            led.ok("C03-R1", key, where(fn, fn.node), f"{npaths} path(s): the tool body runs ⇔ no ceiling ∨ required ⊆ allowed; a refusal is a failure result; an admissible tool runs once")
+            led.ok("C03-R1", key, where(fn, fn.node), f"{npaths} path(s): the tool body runs ⇔ no ceiling ∨ required ⊆ allowed; a refusal is a failure result")
     # ---- a forbidden tool must not run wherever its call sits in the expression and whichever pathway is forced
     net = members[2]
     shapes = ["u(t())", "1 + t()", "0 < t()", "[1, t()]", "t() if 1 else 0", "-t()", "u(x=t())", "t() and 1", "t()"]
